@@ -17,7 +17,7 @@ def validate_encoded(string):
 
 def validate_decoded(obj):
   if isinstance(obj, gfapy.OrientedLine):
-    if not re.match(r"^[!-~]+\Z", obj.name):
+    if not re.match(r"^[!-~]+\Z", str(obj.name)):
       raise gfapy.FormatError(
           "{} is not a valid oriented GFA2 identifier\n".format(repr(obj.name)))
     if obj.orient != "+" and obj.orient != "-":
